@@ -1025,5 +1025,59 @@ pub fn all() -> Vec<Witness> {
             case: case_of(main, vec![], b"", vec![]),
         });
     }
+    // ---- LSET goes by the oldest FIELD list ----
+    {
+        let mut b = B(0);
+        let main = vec![
+            b.s(StmtKind::Open {
+                name: "R.DAT".into(),
+                mode: Mode::Random,
+                handle: 3,
+                len: Some(12),
+            }),
+            b.s(StmtKind::Field {
+                handle: 3,
+                fields: vec![(4, "FA$".into()), (4, "FB$".into())],
+            }),
+            b.s(StmtKind::Field {
+                handle: 3,
+                fields: vec![(2, "FA$".into()), (6, "FB$".into())],
+            }),
+            b.s(StmtKind::Lset {
+                var: "FA$".into(),
+                expr: lit("ab"),
+            }),
+            b.s(StmtKind::Lset {
+                var: "FB$".into(),
+                expr: lit("widget"),
+            }),
+            b.s(StmtKind::Put { handle: 3, rec: 1 }),
+            b.s(StmtKind::Get { handle: 3, rec: 1 }),
+            b.print(
+                Dev::Screen,
+                vec![
+                    e(lit("[")),
+                    PItem::Semi,
+                    e(Expr::SVar("FA$".into())),
+                    PItem::Semi,
+                    e(lit("][")),
+                    PItem::Semi,
+                    e(Expr::SVar("FB$".into())),
+                    PItem::Semi,
+                    e(lit("]")),
+                ],
+            ),
+            b.s(StmtKind::Close(vec![])),
+            b.s(StmtKind::End),
+        ];
+        out.push(Witness {
+            name: "fixed-lset-goes-by-the-oldest-field-list",
+            property: "C18",
+            class: "FileData",
+            key: "",
+            what: "FIELD with the same variables and other widths, LSET, PUT: LSET made the older FIELD list current again, the record was written with the old widths",
+            case: case_of(main, vec![], b"", vec![]),
+        });
+    }
     out
 }
